@@ -494,6 +494,47 @@ fn workers_cold(op: &'static str, end: &'static str) -> Body {
   })
 }
 
+/// C14 (thread-creating operators): the same Observable value subscribed twice, one after the other
+fn resub(op: &'static str) -> Body {
+  Box::new(move || {
+    let nt = schedulers::new_thread_scheduler;
+    let attempts = Arc::new(std::sync::Mutex::new(0usize));
+    let a2 = attempts.clone();
+    let cold: Obs = Observable::create(move |ob: Observer<'static, i64>| {
+      let k = {
+        let mut a = a2.lock().unwrap();
+        *a += 1;
+        *a
+      };
+      for x in [1i64, 2, 3] {
+        ob.next(x);
+      }
+      if op == "subscribe_on_retry" && k == 1 {
+        ob.error(RxError::from_error(900i64));
+      } else {
+        ob.complete();
+      }
+    });
+    let o: Obs = match op {
+      "observe_on" => cold.observe_on(nt()),
+      "subscribe_on" => cold.subscribe_on(nt()),
+      "subscribe_on_retry" => cold.subscribe_on(nt()).retry(2),
+      "observe_on_map" => cold.observe_on(nt()).map(|x: i64| x),
+      "subscribe_on_observe_on" => cold.subscribe_on(nt()).observe_on(nt()),
+      "delay" => cold.delay(Duration::from_millis(5)),
+      "debounce" => cold.debounce(Duration::from_millis(5), nt()),
+      _ => panic!("op"),
+    };
+    meta(serde_json::json!({"kind": "resub", "op": op, "observers": ["A", "B"], "items": [1, 2, 3]}));
+    let _a = subscribe_rec(&o, "A");
+    vf::sleep(Duration::from_millis(100));
+    mark("second-subscription");
+    let _b = subscribe_rec(&o, "B");
+    vf::sleep(Duration::from_millis(100));
+    mark("quiescence-check");
+  })
+}
+
 pub fn catalogue() -> Vec<(String, Vec<&'static str>)> {
   let mut v: Vec<(String, Vec<&'static str>)> = vec![];
   for k in ["subject", "behavior", "replay", "async"] {
@@ -540,6 +581,9 @@ pub fn catalogue() -> Vec<(String, Vec<&'static str>)> {
       v.push((format!("workers:{}:{}", op, cause), vec!["C15", "C07"]));
     }
   }
+  for op in ["observe_on", "subscribe_on", "subscribe_on_retry", "observe_on_map", "subscribe_on_observe_on", "delay", "debounce"] {
+    v.push((format!("resub:{}", op), vec!["C14", "C07"]));
+  }
   for op in ["observe_on", "subscribe_on", "debounce", "timeout", "observe_on_x2", "subscribe_on_observe_on", "debounce_take", "observe_on_first"] {
     for end in ["complete", "error", "just", "empty"] {
       v.push((format!("workers_cold:{}:{}", op, end), vec!["C15", "C07"]));
@@ -565,6 +609,7 @@ pub fn build(name: &str) -> Option<Body> {
     "to_vec" if p.len() == 2 => Some(to_vec(p[1])),
     "workers" if p.len() == 3 => Some(workers(p[1], p[2])),
     "workers_cold" if p.len() == 3 => Some(workers_cold(p[1], p[2])),
+    "resub" if p.len() == 2 => Some(resub(p[1])),
     _ => None,
   }
 }
